@@ -33,6 +33,19 @@ ASSUMPTIONS.append(
     "that carries the level.  The judge is the same relation as everywhere (drop = the run on the frame "
     "from which the incomplete rows were removed by boolean selection, where pandas keeps the declared "
     "categories); a drop that succeeds where the filtered run is refused is a failure as well")
+ASSUMPTIONS.append(
+    "infinite is not missing: for a share of the cases a twin frame is judged in which +inf / -inf and "
+    "huge finite values (+-1e300, +-1.5e308) are written into float columns the formula uses (plain, "
+    "inside calls, as slopes of group terms, the response; now and then an unused column), in rows "
+    "with and without missing values; missing means NaN / None / NA only.  The judge is unchanged: "
+    "which rows are complete is computed by the Lean spec (Spec.C09.completeRows) from the cells, drop "
+    "= the run on the frame without those rows, error <=> such a row exists, pass rule.  The rational "
+    "protocol cannot carry an infinity: on these frames and on the matrices of all runs +inf / -inf "
+    "cross as the rationals +-2^2000 (no float equals them; a cell that is present, never a missing "
+    "one), so 'equal' holds for an infinite entry only against an infinite entry of the same sign and "
+    "NaN only against NaN; the exact-rational pipeline model is not asked about the twin frames (float "
+    "overflow / rounding at 1e300 is outside it) "
+    "(counted as pipeline_skip:infinite values)")
 TRUSTED = ["pandas isna / boolean row selection (modelled by incompleteRows / keepRows)"]
 
 TERMS = ["x", "z", "f", "g", "f:x", "np.exp(z / 4)", "I(x + z)", "{z * 2}", "C(f)", "center(x)",
@@ -57,6 +70,69 @@ RARE_GROUPS = ["(1 | ro)", "(x | ru)", "(z | C(ro))", "(0 + x | ro)", "(1 | ru:h
 LEVELLED = ["f", "g", "h", "cu", "co", "ro", "ru"]
 CORPUS = ["y ~ x + (z | g)", "y ~ fun(x, k=z)", "y ~ `w z` + f", "yc ~ x", "y ~ f:x + (x | h)",
           "y ~ I(x + z) + C(f)"]
+
+
+INF_COLS = ["y", "x", "z", "w z"]                  # float columns (nullable Int64 / boolean cannot hold inf)
+INF_VALUES = [np.inf, -np.inf, np.inf, -np.inf, 1e300, -1e300, 1.5e308, -1.5e308]
+BIG = 2 ** 2000                                     # stands for an infinity on the rational protocol
+
+
+def frac(x):
+    if isinstance(x, (float, np.floating)) and np.isinf(x):
+        return [BIG if x > 0 else -BIG, 1]
+    return designs.frac(x)
+
+
+def mat(a):
+    a = np.asarray(a)
+    if a.ndim == 1:
+        a = a[:, None]
+    return [[frac(v) for v in row] for row in a.tolist()]
+
+
+def frame_json(df):
+    """designs.frame_json; infinite cells of float columns cross as +-BIG (present values)"""
+    num = [c for c in df.columns if pd.api.types.is_float_dtype(df[c])
+           and not isinstance(df[c].dtype, pd.CategoricalDtype)]
+    inf_at = {c: [(i, v) for i, v in enumerate(df[c].tolist()) if isinstance(v, float) and np.isinf(v)]
+              for c in num}
+    inf_at = {c: v for c, v in inf_at.items() if v}
+    if not inf_at:
+        return designs.frame_json(df)
+    safe = df.copy()
+    for c, cells in inf_at.items():
+        vals = safe[c].tolist()
+        for i, _ in cells:
+            vals[i] = 0.0
+        safe[c] = pd.Series(vals, index=safe.index, dtype=float)
+    out = designs.frame_json(safe)
+    for col in out["cols"]:
+        for i, v in inf_at.get(col["name"], []):
+            col["cells"][i] = frac(v)
+    return out
+
+
+def write_infinite(ri, data, formula):
+    """-> (frame, columns, {column: [[row, value], ...]}): infinite / huge finite values written into
+    float columns the formula uses (now and then an unused one), NaN cells left as they are half of
+    the time"""
+    used = [c for c in formula_columns(formula, data) if c in INF_COLS]
+    pool = used or ["x"]
+    out = data.copy()
+    n = len(out)
+    written = {}
+    for c in ri.sample(pool, ri.randrange(1, min(2, len(pool)) + 1)) + (["unused"] if ri.random() < 0.15 else []):
+        j = out.columns.get_loc(c)
+        if not pd.api.types.is_float_dtype(out[c]):
+            out[c] = out[c].astype(float)
+        rows = sorted(ri.sample(range(n), ri.randrange(1, max(2, n // 4))))
+        if ri.random() < 0.5:            # keep the missing cells missing
+            rows = [i for i in rows if not pd.isna(out.iloc[i, j])] or rows
+        vals = [ri.choice(INF_VALUES) for _ in rows]
+        for i, v in zip(rows, vals):
+            out.iloc[i, j] = v
+        written[c] = [[i, repr(v)] for i, v in zip(rows, vals)]
+    return out, list(written), written
 
 
 def fun(a, k=0):
@@ -235,7 +311,7 @@ def run(formula, df, action):
     out = {"used": sorted(set(dm.model.var_names) & set(df.columns))}
     for part in ("response", "common", "group"):
         o = getattr(dm, part)
-        out[part] = None if o is None else designs.mat(o.design_matrix)
+        out[part] = None if o is None else mat(o.design_matrix)
     if dm.common is not None:
         cv = []
         for t in dm.common.terms.values():
@@ -261,9 +337,10 @@ def explore(tier, seed, res=None, replay=None):
                 "frames hold ordered / unordered categoricals with declared categories and a rare "
                 "level (plain, in interactions, in C()/T()/S(), as grouping factor), and in a share of "
                 "the cases one level of a used categorical occurs only in rows that are incomplete "
-                "because of another used variable; "
+                "because of another used variable; for a share of the cases a twin frame with +-inf / "
+                "huge finite values in used float columns (infinite is not missing); "
                 "non-trivial = a case with at least one incomplete used row; distinct by (formula, "
-                "pattern, plain / history)")
+                "pattern, plain / history / infinite twin)")
     n_cases = 300 if tier == "quick" else 8000
     cases = []
     if replay is not None:
@@ -311,7 +388,14 @@ def explore(tier, seed, res=None, replay=None):
             res.count("a level of a used categorical occurs only in incomplete rows")
             res.count("... of an " + ("ordered" if tied["of"] in ("co", "ro") else "unordered / string")
                       + " column")
-        jobs.append((formula, path, data, pointwise, cols, None, tied))
+        jobs.append((formula, path, data, pointwise, cols, None, tied, None))
+        # infinite twin: the same frame with +-inf / huge finite values in used float columns
+        ri = rng_for(seed, "c09", path, "infinite")
+        u_inf = ri.random()
+        if replay is not None or u_inf < 0.35:
+            data_inf, _, written = write_infinite(ri, data, formula)
+            # (the columns that still hold missing values are the ones of `cols`)
+            jobs.append((formula, path, data_inf, pointwise, cols, None, None, written))
         # history twin: the same frame object evaluated, edited in place, evaluated again
         rh = rng_for(seed, "c09", path, "history")
         u_hist = rh.random()
@@ -324,15 +408,19 @@ def explore(tier, seed, res=None, replay=None):
                     "first": (first_formula, rh.choice(["drop", "drop", "error", "pass"]))}
             now = apply_edits(data.copy(deep=True), edits)      # the frame at the time of the 2nd call
             jobs.append((formula, path, now, pointwise,
-                         cols + [e[1] for e in edits if e[0] != "fill" and e[1] not in cols], hist, None))
-    rows_req = [{"op": "c09_rows", "formula": f, "frame": designs.frame_json(d), "action": "drop"}
-                for f, _, d, _, _, _, _ in jobs]
+                         cols + [e[1] for e in edits if e[0] != "fill" and e[1] not in cols], hist, None,
+                         None))
+    rows_req = [{"op": "c09_rows", "formula": f, "frame": frame_json(d), "action": "drop"}
+                for f, _, d, _, _, _, _, _ in jobs]
     rows_out = ask(rows_req)
     spec_reqs, owners = [], []
     pipe_reqs, pipe_owners = [], []
-    for (formula, path, data, pointwise, cols, hist, tied), ro in zip(jobs, rows_out):
+    for (formula, path, data, pointwise, cols, hist, tied, infw), ro in zip(jobs, rows_out):
         res.evaluations += 1
         case = {"formula": formula, "seed_path": path, "missing_in": cols}
+        if infw:
+            case["infinite_or_huge_values_written"] = infw
+            res.count("twin frames with +-inf / huge finite values in used float columns")
         if tied:
             case["level_only_in_incomplete_rows"] = tied
         if hist is None:
@@ -395,7 +483,7 @@ def explore(tier, seed, res=None, replay=None):
             res.mismatches.append({"case": case, "impl": {"used": drop["used"]},
                                    "model": {"used": ro["model_used"], "step": ro["model_step"]}})
         if any_incomplete:
-            res.nontrivial.add((formula, path, hist is not None))
+            res.nontrivial.add((formula, path, hist is not None, infw is not None))
         problems = []
         if drop["used"] != ro["spec_used"]:
             problems.append(f"used variables {drop['used']} differ from the variables of the "
@@ -432,7 +520,10 @@ def explore(tier, seed, res=None, replay=None):
         spec_reqs.append({"op": "c09_spec", "parts": parts})
         owners.append((case, problems, parts))
         # the whole pipeline in Lean with the NA policy, on formula + data alone
-        for action in ("drop", "pass") if (pointwise and not any(c in CAT for c in cols)) else ("drop",):
+        if infw:
+            res.count("pipeline_skip:infinite values")
+        for action in () if infw else ("drop", "pass") if (
+                pointwise and not any(c in CAT for c in cols)) else ("drop",):
             ns = dict(designs.NAMES)
             ns["fun"] = fun
             obs_p, _ = designs.observe(formula, data, ns, na_action=action)
